@@ -347,3 +347,42 @@ def finish(res, level="model_checking"):
 
 def stable_hash(obj):
     return hashlib.sha1(json.dumps(obj, sort_keys=True, default=str).encode()).hexdigest()[:12]
+
+
+# ----------------------------------------------------------------------------- worker pools that cannot hang
+class _ForkPool:
+    """The subset of multiprocessing.Pool the drivers use, on top of concurrent.futures.ProcessPoolExecutor (fork context).
+    multiprocessing.Pool waits forever when a worker process dies (a BaseException such as the recorder's NonTermination, a kill, an
+    out-of-memory kill): a check would hang instead of reporting.  The executor sends BaseExceptions back to the parent and raises
+    BrokenProcessPool when a worker disappears; both surface as a machinery failure (exit 2) of the check, never as a hang."""
+    def __init__(self, procs):
+        import multiprocessing as mp
+        from concurrent.futures import ProcessPoolExecutor
+        self.ex = ProcessPoolExecutor(max_workers=procs, mp_context=mp.get_context("fork"))
+
+    def __enter__(self):
+        return self
+
+    def __exit__(self, *a):
+        self.ex.shutdown(wait=True, cancel_futures=True)
+        return False
+
+    def imap_unordered(self, fn, items, chunksize=1):
+        from concurrent.futures.process import BrokenProcessPool
+        try:
+            for r in self.ex.map(fn, items, chunksize=chunksize):
+                yield r
+        except BrokenProcessPool as ex:
+            raise Machinery("a worker process died while running %s (%s)" % (getattr(fn, "__name__", fn), ex))
+        except Machinery:
+            raise
+        except Exception:
+            raise
+        except BaseException as ex:  # a BaseException raised inside a worker (sent back by the executor)
+            raise Machinery("worker raised %s in %s: %s" % (type(ex).__name__, getattr(fn, "__name__", fn), ex))
+
+    imap = imap_unordered
+
+
+def fork_pool(procs=16):
+    return _ForkPool(procs)
